@@ -164,3 +164,76 @@ def emit_budget(R, loop_contract):
                                                          "model", "set_initial_guess", "checkpoint", "empty", "size", "num_dimensions", "double", "0", "/"], slack=12),
             "drops": ["the parallel branch (threads, condition variables)", "set_initial_guess (no effect on the counts)", "sample values: only counts of points are modelled"]}
     return "\n".join(outs) + "\n", info
+
+
+def emit_parallel(R):
+    """The parallel branch of constructCommon as seen by the MAIN thread: launch loop, the lambda collect_finished, the waiting loop, the final flush and
+    the joins, on the ghost counters of the budget unit.  Rule R11t (thread primitives): mutex / condition_variable / lock declarations are dropped, the
+    worker lambda do_work is replaced by its effect inside the wait (gh_wait_done: some computing workers call the model on their batch and raise their
+    done flag, in any order and number >= 1), std::thread construction and join become ghost calls.  What is decided is the bookkeeping of the main thread
+    under EVERY order in which workers finish; data races, lost wake-ups and the memory model are not (schedule properties)."""
+    text = X.strip_comments(X.read_source(HPP))
+    (p,) = X.cut(HPP, SIG, text)
+    body = p.body
+    mp = re.search(r'if\s*\(\s*parallel_construction\s*==\s*mode_parallel\s*\)\s*(?=\{)', body)
+    if not mp:
+        raise X.ExtractionBreak("constructCommon: parallel branch not found")
+    e = X.match_close(body, mp.end())
+    b = body[mp.end():e + 1]
+    src = b
+    # the worker lambda: dropped (its effect is the stub gh_wait_done)
+    mw = re.search(r'auto\s+do_work\s*=\s*\[&\]\s*\(\s*size_t\s+thread_id\s*\)\s*->\s*void\s*(?=\{)', b)
+    if not mw:
+        raise X.ExtractionBreak("constructCommon: worker lambda do_work not found")
+    ew = X.match_close(b, mw.end())
+    worker = b[mw.end():ew + 1]
+    if not re.search(r'model\(\s*x\[thread_id\]\s*,\s*y\[thread_id\]\s*,\s*thread_id\s*\)', worker) or not re.search(r'work_flag\[thread_id\]\s*=\s*flag_done\s*;\s*count_done\+\+', worker):
+        raise X.ExtractionBreak("constructCommon: the worker no longer has the shape `model(x[id], y[id], id); ... work_flag[id] = flag_done; count_done++` that gh_wait_done models")
+    tail = re.match(r'\s*;', b[ew + 1:])
+    b = b[:mw.start()] + b[ew + 1 + (tail.end() if tail else 0):]
+    R.counts["R11t-worker-lambda"] = 1
+    # the lambda collect_finished: hoisted
+    mc = re.search(r'auto\s+collect_finished\s*=\s*\[&\]\s*\(\s*\)\s*->\s*bool\s*(?=\{)', b)
+    if not mc:
+        raise X.ExtractionBreak("constructCommon: lambda collect_finished not found")
+    ec = X.match_close(b, mc.end())
+    coll = b[mc.end():ec + 1]
+    tail = re.match(r'\s*;', b[ec + 1:])
+    b = b[:mc.start()] + b[ec + 1 + (tail.end() if tail else 0):]
+    R.counts["R7-hoist"] = R.counts.get("R7-hoist", 0) + 1
+    def rw(t):
+        t = R.sub("R5g-job-vectors", r'std::vector<std::vector<double>>\s+x\(num_parallel_jobs\)\s*,\s*y\([^;]*\)\s*;', '', t)
+        t = R.sub("R5g-job-vectors", r'std::vector<int>\s+work_flag\(num_parallel_jobs\)\s*;', '', t)
+        t = R.sub("R2-constexpr", r'\bconstexpr\s+int\s+(flag_\w+)\s*=\s*(\d+)\s*;', '', t)
+        t = R.sub("R11t-primitive", r'std::(?:condition_variable|mutex)\s+\w+\s*;', '', t)
+        t = R.sub("R11t-primitive", r'std::(?:unique_lock|lock_guard)<std::mutex>\s+lock\(\s*access_count_done\s*\)\s*;', '', t)
+        t = R.sub("R11t-wait", r'until_someone_done\.wait\(\s*lock\s*,\s*\[&\]\s*\(\s*\)\s*->\s*bool\s*\{\s*return\s*\(\s*count_done\s*>\s*0\s*\)\s*;\s*\}\s*\)\s*;', 'gh_wait_done();', t)
+        t = R.sub("R11t-notify", r'until_new_job\.notify_all\(\)\s*;', 'gh_notify_workers();', t)
+        t = R.sub("R11t-threads", r'std::vector<std::thread>\s+workers\(num_parallel_jobs\)\s*;', '', t)
+        t = R.sub("R11t-spawn", r'workers\[id\]\s*=\s*std::thread\(\s*do_work\s*,\s*id\s*\)\s*;', 'gh_spawn(id);', t)
+        t = R.sub("R11t-join", r'for\s*\(\s*auto\s*&\s*w\s*:\s*workers\s*\)\s*if\s*\(\s*w\.joinable\(\)\s*\)\s*w\.join\(\)\s*;', 'gh_join_all();', t)
+        t = R.sub("R12g-guess", r'(?<![\w.>])set_initial_guess\(\s*x\[id\]\s*,\s*y\[id\]\s*\)\s*;', '', t)
+        t = R.sub("R12g-add", r'\bcomplete\.add\(\s*x\[id\]\s*,\s*y\[id\]\s*\)\s*;', 'gh_complete_add(x[id]);', t)
+        t = R.sub("R12g-manager", r'\bmanager\.complete\(\s*x\[id\]\s*\)\s*;', 'gh_manager_complete(x[id]);', t)
+        t = R.sub("R12g-manager", r'\bmanager\.getNumRunning\(\)', 'g_running', t)
+        t = R.sub("R5g-empty", r'\bx\[id\]\.empty\(\)', '(x[id] == 0)', t)
+        t = R.sub("R5g-empty", r'(?<![\w.\]])x\.empty\(\)', '(num_parallel_jobs == 0)', t)
+        t = R.sub("R5g-size", r'\bx\[id\]\.size\(\)\s*/\s*num_dimensions', 'x[id]', t)
+        t = _r12g_budget(R, t)
+        # R13: the two load / refresh heuristics (ratios of counts against 0.2) may come out either way
+        t = R.sub("R13-fp-ratio", r'\(\(double\)\(([^()]*)\)\)\s*/\s*\(\(double\)\(([^()]*)\)\)\s*>\s*0\.2', r'tsg_ratio_gt(\1, \2)', t)
+        return t
+    b = rw(b); coll = rw(coll)
+    X.check_leftover(b + coll, "constructCommon parallel branch")
+    R.require({"R11t-wait": 1, "R11t-spawn": 1, "R11t-join": 1, "R11t-primitive": 4, "R12g-next": 1, "R12g-add": 1, "R12g-load": 0})
+    ln = p.line + (p.header + body[:mp.end()]).count('\n')
+    out = ('#line %d "%s"\nstatic bool collect_finished(void)%s\n#line %d "%s"\nstatic void parallel_branch(void)%s\n' % (ln, X.REPO + "/" + p.rel, coll, ln, X.REPO + "/" + p.rel, b))
+    info = {"functions": [{"name": "TasGrid::constructCommon (parallel branch, main thread: launch loop, collect_finished, waiting loop, flush, joins)", "file": p.rel, "line": ln, "loops": X.count_loops(b) + X.count_loops(coll)}],
+            "rules_fired": {k: v for k, v in R.counts.items() if v},
+            "fidelity": X.fidelity(src, coll + b, extra_vocab=["x", "y", "id", "work_flag", "flag_done", "flag_computing", "flag_shutdown", "std", "vector", "double", "int", "constexpr", "condition_variable", "mutex", "unique_lock", "lock_guard", "lock",
+                                   "access_count_done", "until_someone_done", "until_new_job", "wait", "notify_one", "notify_all", "count_done", "thread", "workers", "do_work", "thread_id", "my_flag", "model", "joinable", "join", "w", "auto", "bool", "return",
+                                   "collect_finished", "any_done", "manager", "next", "complete", "add", "getNumRunning", "getNumDone", "getNumCandidates", "getNumStored", "getNumLoaded", "grid", "empty", "size", "num_dimensions", "num_parallel_jobs",
+                                   "max_samples_per_job", "num_outputs", "set_initial_guess", "checkpoint", "load_complete", "refresh_candidates", "checkout_sample", "total_num_launched", "max_num_points", "size_t", "while", "if", "else", "for", "true", "false",
+                                   "0", "1", "2", "1000", "0.2", "(", ")", "{", "}", "[", "]", "&", "->", ";", ",", "=", "==", "!=", "<", ">", "++", "+=", "/", "!", "||", "&&", "*"], slack=80),
+            "drops": ["the worker lambda do_work (its effect is the stub gh_wait_done)", "mutex / condition_variable / lock objects, notify calls", "set_initial_guess", "sample values: only counts of points are modelled"]}
+    return out, info
